@@ -284,6 +284,10 @@ func ZZ_C08_create_eni_rollback() {
 		zz.Assert(inUse || gone || marked, "an interface the cloud created is attached and recorded, or deleted again, or recorded for deletion - never leaked")
 		zz.Assert(zz.Implies(err == nil, inUse && cloud.attached["eni-new"]), "success means the interface is attached and recorded in use")
 		zz.Assert(zz.Implies(marked, MetaCtx(ctx).StatusChanged.Load()), "recording an interface for deletion marks the status as changed")
+		// hand-over to Reconcile: a failed Node CR update only schedules the
+		// cloud re-read when the flag is set, so every change of the record
+		// has to set it - the new interface included
+		zz.Assert(zz.Implies(rec != nil, MetaCtx(ctx).StatusChanged.Load()), "recording a new interface marks the status as changed")
 	} else {
 		zz.Assert(err != nil && rec == nil, "a failed create records nothing")
 	}
